@@ -133,8 +133,9 @@ class AddressType(StringType, prim='address'):
 
     @classmethod
     def from_value(cls, value: str) -> 'AddressType':
-        if value.endswith('%default'):
-            value = value.split('%')[0]
+        address, _, entrypoint = value.partition('%')
+        if entrypoint == 'default':
+            value = address
         assert is_address(value), f'expected tz/KT/sr address, got {value}'
         return cls(value)
 
@@ -183,8 +184,9 @@ class TXRAddress(StringType, prim='tx_rollup_l2_address'):
 
     @classmethod
     def from_value(cls, value: str) -> 'TXRAddress':
-        if value.endswith('%default'):
-            value = value.split('%')[0]
+        address, _, entrypoint = value.partition('%')
+        if entrypoint == 'default':
+            value = address
         assert is_txr_address(value), f'expected txr1 address, got {value}'
         return cls(value)
 
